@@ -593,7 +593,11 @@ func (td *TestDir) requests(r *common.RNG, tier string) []request {
 		}
 	}
 	for _, u := range td.Probes {
-		rs = append(rs, request{URL: u, Class: "probe"})
+		if hashURL.MatchString(u) {
+			rs = append(rs, request{URL: u, Class: "hash"})
+		} else {
+			rs = append(rs, request{URL: u, Class: "probe"})
+		}
 	}
 	// mutations of valid URLs
 	nmut := 12
@@ -691,6 +695,9 @@ func (rn *runner) violate(td *TestDir, fl failure, only *request) {
 func classOf(oracle string) string {
 	if strings.HasPrefix(oracle, "serves-stored/") || strings.HasPrefix(oracle, "concurrent-correct/") {
 		return "stored-" + oracle[strings.Index(oracle, "/")+1:]
+	}
+	if oracle == "hash-resolution" {
+		return "hash"
 	}
 	if i := strings.IndexAny(oracle, ":/"); i >= 0 {
 		return oracle[i+1:]
@@ -871,6 +878,10 @@ func (rn *runner) evalDir(td *TestDir, seed uint64, only *request, report bool) 
 			}
 		case strings.Contains(q.URL, "_"):
 			// outside the property (ambiguous naming); compared with the model above
+		case q.Class == "hash":
+			if msg := td.checkHash(q.URL, impl[i]); msg != "" {
+				fail("impl-violation", "hash-resolution", q.URL, "", clip([]byte(ob)), msg)
+			}
 		default:
 			if msg := td.servedFromStore(q.URL, impl[i]); msg != "" {
 				fail("impl-violation", "served-from-store/"+q.Class, q.URL, "", clip([]byte(ob)), msg)
